@@ -179,6 +179,13 @@ pub(crate) fn operand_text(value: &Value) -> String {
     // (neither the history of a null item of a list nor of a null entry of a context)
     Value::List(items) => format!("[{}]", items.as_vec().iter().map(operand_text).collect::<Vec<String>>().join(", ")),
     Value::Context(context) => format!("{{{}}}", context.iter().map(|(name, entry)| format!("{}: {}", name, operand_text(entry))).collect::<Vec<String>>().join(", ")),
+    Value::Range(start, start_closed, end, end_closed) => format!(
+      "{}{}..{}{}",
+      if *start_closed { '[' } else { '(' },
+      operand_text(start),
+      operand_text(end),
+      if *end_closed { ']' } else { ')' }
+    ),
     other => other.to_string(),
   }
 }
@@ -816,9 +823,9 @@ fn build_function_invocation_positional(lhs: &AstNode, rhs: &[AstNode]) -> Resul
     match function {
       Value::BuiltInFunction(bif) => bifs::positional::evaluate_bif(bif, &arguments),
       Value::FunctionDefinition(parameters, body, result_type) => eval_function_positional(scope, &arguments, &parameters, &body, result_type),
-      _ => value_null!(
+      other => value_null!(
         "feel-evaluator: expected built-in function name or function definition, actual value is {}",
-        function as Value
+        operand_text(&other)
       ),
     }
   }))
@@ -834,9 +841,9 @@ fn build_function_invocation_named(lhs: &AstNode, rhs: &AstNode) -> Result<Evalu
     match function {
       Value::BuiltInFunction(bif) => bifs::named::evaluate_bif(bif, &arguments),
       Value::FunctionDefinition(parameters, body, result_type) => eval_function_named(scope, &arguments, &parameters, &body, result_type),
-      _ => value_null!(
+      other => value_null!(
         "feel-evaluator: expected built-in function name or function definition, actual value is {}",
-        function as Value
+        operand_text(&other)
       ),
     }
   }))
@@ -1460,7 +1467,7 @@ fn build_path(lhs: &AstNode, rhs: &AstNode) -> Result<Evaluator> {
           if let Some(value) = context.get_entry(&name) {
             value.clone()
           } else {
-            value_null!("eval_path_expression: no entry {} in context: {}", name, context)
+            value_null!("eval_path_expression: no entry {} in context: {}", name, operand_text(&Value::Context(context)))
           }
         }
         Value::List(items) => {
